@@ -185,18 +185,39 @@ def run(ctx):
     # ------------------------------------------------------------------ R19.6
     dv = [b for b in F.all_bodies(CORE) if b.name == "write" and b.impl and (b.impl.get("trait") or "").endswith("::Value") and b.impl.get("self_ty") == "core::time::Duration"]
     ctx.floor("R19.6", "Value for Duration", len(dv), 1)
+    def metric_sites(b):
+        """where body b emits its metric: [(block, distribution operand, unit operand)] - the ValueWriter::metric call itself, or the call of
+        a private helper that forwards an observation and a unit it is given to ValueWriter::metric"""
+        out = [(c.bb, c.args[1], c.args[2]) for c in b.calls() if c.is_trait_method("ValueWriter", "metric") and len(c.args) > 2]
+        for c in b.calls():
+            for hb in local_callee_bodies(F, c):
+                if hb.crate != CORE or hb.kind == "Closure":
+                    continue
+                hm = [x for x in hb.calls() if x.is_trait_method("ValueWriter", "metric") and len(x.args) > 2]
+                if len(hm) != 1 or not hb.must_pass([hm[0].bb]):
+                    continue
+                hpr = Prov(hb)
+                dp = [x[1] for x in hpr.operand(hm[0].args[1]) if x[0] == "arg" and not x[2]]
+                dp += [x[1] for x in hpr.operand(hm[0].args[1]) if x[0] == "arg"]
+                for i_ in hb.live_blocks():
+                    for s_ in hb.stmts(i_):
+                        if s_["k"] == "assign" and s_["rv"]["k"] == "agg" and s_["rv"].get("agg") == "array":
+                            dp += [x[1] for o_ in s_["rv"]["ops"] for x in hpr.operand(o_) if x[0] == "arg"]
+                up = [x[1] for x in hpr.operand(hm[0].args[2]) if x[0] == "arg" and not x[2]]
+                if dp and up and dp[0] - 1 < len(c.args) and up[0] - 1 < len(c.args):
+                    out.append((c.bb, c.args[dp[0] - 1], c.args[up[0] - 1]))
+        return out
     for b in dv:
-        m = [c for c in b.calls() if c.is_trait_method("ValueWriter", "metric")]
         ok = False
-        for c in m:
-            o = Prov(b).operand(c.args[2])
-            ok = ok or any(x[0] == "agg" and x[2] == "Second" for x in o) and any(x[0] == "agg" and x[2] == "Milli" for x in o) or "Milli" in str(op_const(c.args[2]) or "")
+        for sbb, dist_op, unit_op in metric_sites(b):
+            o = Prov(b).operand(unit_op)
+            ok = ok or any(x[0] == "agg" and x[2] == "Second" for x in o) and any(x[0] == "agg" and x[2] == "Milli" for x in o) or "Milli" in str(op_const(unit_op) or "")
         ctx.check(ok, "R19.6", fnkey(b) + "#writes-milliseconds-unit", loc(b), "Duration is not written with Unit::Second(Milli) although its declared unit is Millisecond")
     # ------------------------------------------------------------------ R19.7 a Duration becomes a number without truncation
     TRUNC = ("as_micros", "as_millis", "as_secs", "subsec_micros", "subsec_millis", "as_secs_f32", "as_millis_f32")
     n7 = 0
     for b in dv:
-        for c in [c for c in b.calls() if c.is_trait_method("ValueWriter", "metric")]:
+        for sbb, dist_op, unit_op in metric_sites(b):
             seen_b, bad, exact = set(), [], []
 
             def walk(body, roots, depth):
@@ -238,12 +259,12 @@ def run(ctx):
                             pl = o.get("copy") or o.get("move")
                             if pl is not None:
                                 work.append(pl["l"])
-            root = op_local(c.args[1]) if len(c.args) > 1 else None
+            root = op_local(dist_op)
             if root is None:
                 continue
             n7 += 1
             walk(b, [root], 3)
-            ctx.check(not bad and bool(exact), "R19.7", fnkey(b) + "#duration-read-without-truncation", loc(b, c.bb),
+            ctx.check(not bad and bool(exact), "R19.7", fnkey(b) + "#duration-read-without-truncation", loc(b, sbb),
                       "the number written for a Duration is derived through a truncating accessor (%s): the part of the duration below that unit is "
                       "dropped before any unit is attached, so number x unit no longer equals the measured time" % ", ".join(bad) if bad else
                       "cannot find how the Duration is turned into a number (expected as_secs_f64 / as_nanos)",
